@@ -51,7 +51,8 @@ def summand(v, scalar_shape):
 
 def single(paths, ctx, oid, props, fnq):
     ok = len(paths) == 1 and paths[0].outcome == "return"
-    ctx.oblige(oid, ok, [], props, kind="struct", fn=fnq, note="method must have a single straight-line path (value-dependent branching only through jnp.where)")
+    ctx.oblige(oid, ok, [], props, kind="applicability", fn=fnq, note="this contract covers a method with a single straight-line path (value-dependent branching only through jnp.where); "
+               f"found {len(paths)} path(s): {[p_.outcome for p_ in paths][:6]}")
     return paths[0] if ok else None
 
 
